@@ -540,18 +540,20 @@ def k1_match(case):
     if case.get("clause") == "knob_dependence":
         return k1_knob_match(case)
     # K1 is about the verdict clause ("different reported as equal") on an input with a tag-like str, and the wrong verdict is the one the
-    # collision predicts
+    # collision predicts: K1 replayed on the unchanged code's own steps under this very setting (k1_diff_empty: pairing computed or not) says
+    # "empty".  [{'NONE'}] vs [{None,'NONE'}] with report_repetition and max_passes=0 is NOT predicted empty (the colliding members are
+    # counted in the item hash): an empty result there would be a new failure although the values are equal modulo the collision
     if not (case.get("clause") == "verdict" and case.get("impl_empty") is True and case.get("spec_equal") is False
-            and case.get("tag_like") is True):
+            and case.get("tag_like") is True and case.get("k1_predicts_empty") is True):
         return False
     # (i) the difference vanishes once every scalar is identified with the str that spells its serialisation
     if case.get("tag_blind_equal") is True:
         return True
     # (ii) report_repetition: the two values are NOT equal modulo the collision as nested multisets (tag_blind), because the colliding
     # members are counted inside a set item or because a removed hash occurs twice, and yet the unchanged code reports nothing once the
-    # differing items are paired (K1 replayed under this very setting predicts empty) - and with the colliding atoms separated the
-    # implementation itself gives the right verdict under this very setting
-    if case.get("k1_predicts_empty") is not True or "knobs" not in case:
+    # differing items are paired - accepted when, in addition, with the colliding atoms separated the implementation itself gives the
+    # right verdict under this very setting
+    if "knobs" not in case:
         return False
     t1, t2 = from_repr(case["t1"]), from_repr(case["t2"])
     kn = case["knobs"]
